@@ -18,9 +18,10 @@ namespace {
 struct TestError : std::exception {};
 struct ConvError : std::exception {};
 
-enum Adapter { A_CB_AWAIT = 0, A_CB_AWAIT_ALLOC, A_MAKE_PROMISE, A_MAKE_PROMISE_STORAGE, A_DISCARD, A_CONV_MEMBER, A_CONV_MEMBER_VOID, A_CONV_MEMBER_SP, A_CONV_MEMBER_SP_VOID, A_CONV_STATIC, A_CONV_STATIC_CTX, A_CALL_FN, NADAPT };
+enum Adapter { A_CB_AWAIT = 0, A_CB_AWAIT_ALLOC, A_MAKE_PROMISE, A_MAKE_PROMISE_STORAGE, A_DISCARD, A_CONV_MEMBER, A_CONV_MEMBER_VOID, A_CONV_MEMBER_SP, A_CONV_MEMBER_SP_VOID, A_CONV_STATIC, A_CONV_STATIC_CTX, A_CALL_FN, A_CB_AWAIT_FACTORY, A_CB_AWAIT_FACTORY_CORO, A_CB_AWAIT_ALLOC_FACTORY_CORO, NADAPT };
 static const char *ad_names[] = {"callback_await", "callback_await_alloc", "make_promise", "make_promise+storage", "discard", "future_conv<member>", "future_conv<member,void>",
-                                 "future_conv<member,suspend_point>", "future_conv<member,suspend_point,void>", "future_conv<static>", "future_conv<static,ctx>", "call_fn_future_awaiter"};
+                                 "future_conv<member,suspend_point>", "future_conv<member,suspend_point,void>", "future_conv<static>", "future_conv<static,ctx>", "call_fn_future_awaiter",
+                                 "callback_await(factory)", "callback_await(factory) from a coroutine", "callback_await_alloc(factory) from a coroutine"};
 enum Outcome { O_VALUE = 0, O_EXC, O_DROP, NOUT };
 static const char *out_names[] = {"value", "exception", "drop"};
 enum Timing { T_BEFORE = 0, T_LATER, NTIM };
@@ -143,6 +144,37 @@ struct CallFnOwner {
     }
 };
 
+// callback_await<future<int>>(fn, factory): the awaitable is constructed inside the helper coroutine from the arguments
+// given at registration. The factory is a stateful rvalue; registered from inside a running coroutine the helper only
+// starts after the registering coroutine (and its temporaries) are gone, so the helper must own a copy.
+static int g_factory_dead_calls;
+struct Factory {
+    Src<int> *src;
+    int out, tim;
+    int alive = 12345;
+    Factory(Src<int> *s, int o, int t) : src(s), out(o), tim(t) {}
+    Factory(const Factory &o) : src(o.src), out(o.out), tim(o.tim), alive(o.alive) {}
+    ~Factory() {
+        volatile int *p = &alive;
+        *p = 0;
+    }
+    cocls::future<int> operator()() {
+        if (alive != 12345) {
+            g_factory_dead_calls++;
+            return cocls::future<int>::set_value(-777);
+        }
+        return src->make(out, tim);
+    }
+};
+template <typename Fn>
+static cocls::async<void> register_from_coroutine(Fn fn, Src<int> *src, int out, int tim, cocls::reusable_storage *storage) {
+    if (storage)
+        cocls::callback_await_alloc<cocls::reusable_storage, cocls::future<int>>(*storage, std::move(fn), Factory(src, out, tim));
+    else
+        cocls::callback_await<cocls::future<int>>(std::move(fn), Factory(src, out, tim));  // rvalue: the helper owns the callback
+    co_return;
+}
+
 struct CountingStorage : cocls::reusable_storage {
     int allocs = 0;
     void *alloc(std::size_t sz) {
@@ -237,6 +269,36 @@ static void run_cell(seqx::Runner &R, int ad, int out, int tim, int cthrow) {
                     src.resolve(out);
                     R.step();
                 }
+                break;
+            }
+            case A_CB_AWAIT_FACTORY:
+            case A_CB_AWAIT_FACTORY_CORO:
+            case A_CB_AWAIT_ALLOC_FACTORY_CORO: {
+                g_factory_dead_calls = 0;
+                auto fn = [&probe](cocls::await_result<int> r) {
+                    probe.calls++;
+                    try {
+                        probe.val = *r;
+                        probe.kind = 1;
+                    } catch (const TestError &) {
+                        probe.kind = 2;
+                    } catch (const cocls::await_canceled_exception &) {
+                        probe.kind = 3;
+                    } catch (...) {
+                        probe.kind = 9;
+                    }
+                };
+                if (ad == A_CB_AWAIT_FACTORY)
+                    cocls::callback_await<cocls::future<int>>(fn, Factory(&src, out, tim));
+                else
+                    register_from_coroutine(fn, &src, out, tim, ad == A_CB_AWAIT_ALLOC_FACTORY_CORO ? &storage : nullptr).detach();
+                R.step();
+                if (tim == T_LATER) {
+                    if (probe.calls) R.fail("cb/fired-before-resolution", "callback ran before the awaited future was resolved");
+                    src.resolve(out);
+                    R.step();
+                }
+                if (g_factory_dead_calls) R.fail("cb/argument-used-after-destruction", "the awaitable was constructed from a registration argument that no longer exists");
                 break;
             }
             case A_MAKE_PROMISE:
